@@ -25,6 +25,11 @@ WITNESSES = [
     ("load-during-incremental-persist-2", "w:12,s,w:1,s,w:2,s[snap.persisted:L;w:1],sn,w:2,s,w:1,s,c"),
     ("refused-incremental", "w:1,s,w:2,s[snap.persisted:w:1],L,w:2,s,w:1,s,c"),
     ("reap", "w:1,s,w:2,s,w:12,s,r,w:1,s,c"),
+    # the database replaced by Store.ReadFrom ("boot") instead of a load through the log
+    ("boot-stale-staging", "w:1,s,w:12,sn,B,s,w:2,s,c"),
+    ("boot-stale-staging-modified", "w:1,s,w:12,sn,w:2,sn,B,w:1,s,w:2,s,w:12,c"),
+    ("boot-then-incrementals", "w:1,s,w:2,B,w:1,s,w:2,s,w:12,c"),
+    ("boot-on-fresh-node", "B,w:1,s,w:2,s,c"),
 ]
 
 def run(ctx):
@@ -35,11 +40,24 @@ def run(ctx):
     sample, gst = snapcases.generated(ctx, vlib, ctx.pick("SnapshottingGen.cfg", "SnapshottingGen4.cfg"), ctx.pick(40, 500), calm, final_restore=True)
     cases = sample + [{"id": "wit-" + n, "phases": [{"script": s, "crash": "", "recover": False, "rmfp": False},
                                                      {"script": "c", "crash": "", "recover": False, "rmfp": True}]} for n, s in WITNESSES]
+    # boot twins of the generated histories with a load: same abstract step (the database is replaced), other code path
+    twins = []
+    for c in sample:
+        ph = [dict(p) for p in c["phases"]]
+        hit = False
+        for p in ph:
+            ops = p["script"].split(",")
+            if "L" in ops:
+                p["script"] = ",".join("B" if o == "L" else o for o in ops)
+                hit = True
+        if hit:
+            twins.append({"id": c["id"] + "-boot", "phases": ph})
+    cases += twins[:ctx.pick(10, 120)]
     st, rows = snapcases.run_cases(ctx, vlib, cases, "restore of the newest snapshot plus log replay", "rebuild")
     ctx.cov["generated"] = gst
     ctx.cov["replay"] = st
     ctx.add("traces_validated_against_impl", len(cases))
     ctx.sample([snapcases.describe(c) for c in cases[:4]] + [snapcases.describe(cases[-1])])
     ctx.cov["exhaustive"] = False
-    ctx.assumptions += ["follower snapshot install is exercised through the same restore path (forced restore at start-up); boots are not generated",
+    ctx.assumptions += ["follower snapshot install is exercised through the same restore path (forced restore at start-up); a boot (Store.ReadFrom) is the same abstract step as a load: witnesses and twins of generated histories",
                         "page-heavy write batches are not generated (two pages, one row each)"]
